@@ -223,4 +223,47 @@ theorem config_obj_cleanK {P : String → Prop} (hx : P extKey) (hemp : P "") (h
   | err e => rw [he] at hd; simp [Out.bind] at hd
   | panic s => rw [he] at hd; simp [Out.bind] at hd
 
+/-! ### entries of a section (a resource that is not a mapping: only possible with `SkipNormalization`) -/
+
+theorem forall_decodeObjsK {Q2 : String → Val → Prop} {Q3 : String → FileObj → Prop} (g : Bool) (k : KnownExt)
+    (f : Val → Out FileObj) (p : TPath)
+    (step : ∀ n v o, Q2 n v → (pxEntryK g k p n v).bind f = .ok o → Q3 n o) :
+    ∀ {objs : KVs} {l : List (String × FileObj)}, decodeObjsK g k f p objs = .ok l →
+      (∀ e ∈ objs, Q2 e.1 e.2) → ∀ e ∈ l, Q3 e.1 e.2
+  | [], l, h, _ => by simp [decodeObjsK] at h; subst h; simp
+  | (n, v) :: r, l, h, hq => by
+    simp only [decodeObjsK] at h
+    simp only [List.forall_mem_cons] at hq
+    split at h <;> try (cases h; done)
+    rename_i o r' h1 h2
+    cases h
+    simp only [List.forall_mem_cons]
+    exact ⟨step n v o hq.1 h1, forall_decodeObjsK g k f p step h2 hq.2⟩
+
+theorem CleanBut_default {P : String → Prop} : FileObj.CleanBut P {} :=
+  ⟨.inl rfl, .inl rfl, .inl rfl, by simp [StrMapOk], .inl rfl, by simp [StrMapOk], .inl rfl, by simp [AllStrKV]⟩
+
+theorem secret_entry_cleanK {P : String → Prop} (hx : P extKey) (hemp : P "") (hnil : P "<nil>") (hcut : CutClosed P)
+    {g : Bool} {k : KnownExt} (hk : DecOk P k) (hs : CarrierSafe g k) {p : TPath} {n : String} {v : Val}
+    (h : ValOkF P xValue v) {o : FileObj} (hd : (pxEntryK g k p n v).bind decodeSecret = .ok o) :
+    o.CleanBut P ∧ o.marshallContent = false := by
+  cases v with
+  | map kvs => exact secret_obj_cleanK hx hemp hnil hcut hk hs h hd
+  | null => simp only [pxEntryK, pxVal, Out.bind, decodeSecret] at hd; cases hd; exact ⟨CleanBut_default, rfl⟩
+  | seq xs => simp [pxEntryK, pxVal, Out.bind, decodeSecret] at hd
+  | _ => simp [pxEntryK, pxVal, Out.bind, decodeSecret] at hd
+
+theorem config_entry_cleanK {P : String → Prop} (hx : P extKey) (hemp : P "") (hnil : P "<nil>") (hcut : CutClosed P)
+    {g : Bool} {k : KnownExt} (hk : DecOk P k) {p : TPath} {n : String} {v : Val}
+    (h : ValOkF P "content" v) (hl : ∀ kvs, v = .map kvs → CfgLink P kvs) {o : FileObj}
+    (hd : (pxEntryK g k p n v).bind decodeConfig = .ok o) :
+    o.CleanBut P ∧ (o.environment ≠ "" ∨ OptP P o.content) := by
+  cases v with
+  | map kvs => exact config_obj_cleanK hx hemp hnil hcut hk h (hl kvs rfl) hd
+  | null =>
+    simp only [pxEntryK, pxVal, Out.bind, decodeConfig] at hd; cases hd
+    exact ⟨CleanBut_default, .inr (.inl rfl)⟩
+  | seq xs => simp [pxEntryK, pxVal, Out.bind, decodeConfig] at hd
+  | _ => simp [pxEntryK, pxVal, Out.bind, decodeConfig] at hd
+
 end CV.Secrets
